@@ -80,7 +80,7 @@ class C01(HistoryProperty):
                 node = {"k": "derive", "base": base["id"], "how": how, "options": g.preset(avoid=forced if how == "with_options" else ()), "id": f"late{j}"}
                 at = rng.randrange(1, len(ops) + 1)
                 ops.insert(at, {"op": "derive", "node_def": node})
-                dg = U.DictGen(rng, cfg)
+                dg = U.DictGen(rng, cfg, no_list_keys=gen.hashable_required_keys(spec))
                 o = ops[at - 1].get("o", {})
                 for k in range(at + 1, len(ops) + 1):
                     if rng.random() < 0.4:
